@@ -290,13 +290,17 @@ class GarbageCollector:
             raise _MarkerUnreadable(str(e)) from e
         if not raw.strip():
             # Legacy marker without payload: "<data file basename>.inflight"
-            # protects data/<basename> (written BEFORE that file, so the file
-            # need not exist yet). Markers written by this version are named
-            # by 32 hex digits and always carry a payload: an empty one is a
-            # damaged marker, not a legacy one.
-            if _NEW_STYLE_MARKER_RE.match(basename):
-                raise _MarkerUnreadable("empty payload")
-            return fallback
+            # protects data/<basename>. Markers written by this version are
+            # named by 32 hex digits and always carry a payload: an empty one
+            # is a damaged marker, not a legacy one.
+            # An empty marker under any other name is either a true legacy
+            # marker (its data file sits directly in data/) or a damaged one
+            # whose target may live anywhere (a manifest, a file in a
+            # sub-directory): protecting data/<name> then protects nothing.
+            # Trust the name only when it leads to a file.
+            if not _NEW_STYLE_MARKER_RE.match(basename) and self.storage.exists(fallback):
+                return fallback
+            raise _MarkerUnreadable("empty payload and no data file of the marker's name")
         try:
             payload = json.loads(raw.decode("utf-8"))
             target = payload.get("file_path")
